@@ -6,6 +6,7 @@
   VCF specification prescribes (`for a in 0..N-1: for g in Genotypes(P-1, a+1): g ++ [a]`); the canonical
   index of a genotype is its position in this list.
 * `multichoose p a` – number of multisets of size `p` over `a` alleles by Pascal's rule (no factorials).
+* `lexLt` – lexicographic order of allele vectors.
 -/
 namespace WhVerif.C19.Spec
 
@@ -25,5 +26,14 @@ def multichoose : (p a : Nat) → Nat
   | 0, _ => 1
   | _ + 1, 0 => 0
   | p + 1, a + 1 => multichoose p (a + 1) + multichoose (p + 1) a
+
+/-- lexicographic order on allele vectors (as Python compares lists); on the *descending* vectors `as_vector()` of
+one ploidy this is the order the class comment of `genotype.h` describes: first the genotypes that only use allele 0,
+then those whose largest allele is 1, … – the largest allele decides first -/
+def lexLt : List Nat → List Nat → Bool
+  | [], [] => false
+  | [], _ :: _ => true
+  | _ :: _, [] => false
+  | a :: as, b :: bs => a < b || (a == b && lexLt as bs)
 
 end WhVerif.C19.Spec
